@@ -158,7 +158,7 @@ func IPLiteral(s string) (family int, addr [16]byte) {
 //	neither: anything else
 func PortClass(s string) (strict bool, lenient bool, value int) {
 	dec := func(x string) (int, bool) {
-		if len(x) == 0 || len(x) > 20 {
+		if len(x) == 0 {
 			return 0, false
 		}
 		v := 0
